@@ -65,6 +65,9 @@ structure Rec where
   u : List Int := []
 deriving DecidableEq, Repr, Inhabited
 
+/-- the same record with both positions lowered by one -/
+def Rec.shiftDown (r : Rec) : Rec := { r with p1 := r.p1 - 1, p2 := r.p2 - 1 }
+
 /-- working state of one retained record: integer chromosome ids and zero-based anchors
 (`chrom1_ids`, `anchor1`, …: arrays separate from the frame) and the frame's own columns -/
 structure Row where
@@ -90,8 +93,10 @@ deriving DecidableEq, Repr, Inhabited
 
 def Out.key (o : Out) : Key := (o.bin1, o.bin2)
 
-/-- the value column aggregated besides the count: the first unpaired column -/
-def Out.val (o : Out) : Int := match o.r.u with | [] => 0 | v :: _ => v
+/-- the value column aggregated besides the count: the first unpaired column (0 when there is none) -/
+def firstVal (u : List Int) : Int := match u with | [] => 0 | v :: _ => v
+
+def Out.val (o : Out) : Int := firstVal o.r.u
 
 /-! ### `_sanitize_records` -/
 
@@ -256,6 +261,17 @@ def totalCount : List Cell → Nat
   | [] => 0
   | c :: rest => c.n + totalCount rest
 
+instance decEqExcept {α : Type} [DecidableEq α] : DecidableEq (Except Err α)
+  | .ok a, .ok b => if h : a = b then isTrue (by rw [h]) else isFalse (by intro e; cases e; exact h rfl)
+  | .error a, .error b =>
+    if h : a = b then isTrue (by rw [h]) else isFalse (by intro e; cases e; exact h rfl)
+  | .ok _, .error _ => isFalse (by intro e; cases e)
+  | .error _, .ok _ => isFalse (by intro e; cases e)
+
+def isErr {α : Type} : Except Err α → Bool
+  | .error _ => true
+  | .ok _ => false
+
 /-! ### `_sanitize_pixels` (pre-binned COO records) -/
 
 structure PxRec where
@@ -267,7 +283,7 @@ structure PxRec where
 deriving DecidableEq, Repr, Inhabited
 
 def PxRec.key (p : PxRec) : Key := (p.b1, p.b2)
-def PxRec.val (p : PxRec) : Int := match p.u with | [] => 0 | v :: _ => v
+def PxRec.val (p : PxRec) : Int := firstVal p.u
 
 def PxRec.shift (o : Opts) (p : PxRec) : PxRec :=
   if o.oneBased then { p with b1 := p.b1 - 1, b2 := p.b2 - 1 } else p
@@ -286,18 +302,18 @@ def insertPx (x : PxRec) : List PxRec → List PxRec
 
 def sortPxRecs (l : List PxRec) : List PxRec := l.foldr insertPx []
 
+def trilPx (o : Opts) (ps : List PxRec) : Except Err (List PxRec) :=
+  match o.tril with
+  | .keep => .ok ps
+  | .reflect => .ok (ps.map (PxRec.orient o))
+  | .drop => .ok (ps.filter fun p => !p.isTril)
+  | .raise => if ps.any PxRec.isTril then .error .badInput else .ok ps
+  | .bogus => if ps.any PxRec.isTril then .error .value else .ok ps
+
 /-- `_sanitize_pixels`: one-based shift of the ids, lower-triangle handling on the ids, sort.
 No bounds check happens here (`validate_pixels` in `create` does it) -/
 def sanitizePixels (o : Opts) (ps : List PxRec) : Except Err (List PxRec) :=
-  let ps := ps.map (PxRec.shift o)
-  let r : Except Err (List PxRec) :=
-    match o.tril with
-    | .keep => .ok ps
-    | .reflect => .ok (ps.map (PxRec.orient o))
-    | .drop => .ok (ps.filter fun p => !p.isTril)
-    | .raise => if ps.any PxRec.isTril then .error .badInput else .ok ps
-    | .bogus => if ps.any PxRec.isTril then .error .value else .ok ps
-  match r with
+  match trilPx o (ps.map (PxRec.shift o)) with
   | .error e => .error e
   | .ok ps' => .ok (if o.sort then sortPxRecs ps' else ps')
 
@@ -352,7 +368,7 @@ def anchorOf (oneBased : Bool) (r : Rec) : Option Anchor :=
   match r.c1, r.c2 with
   | some a, some b =>
     let d : Int := if oneBased then 1 else 0
-    some ⟨a, r.p1 - d, b, r.p2 - d, match r.u with | [] => 0 | v :: _ => v⟩
+    some ⟨a, r.p1 - d, b, r.p2 - d, firstVal r.u⟩
   | _, _ => none
 
 def Anchor.lower (a : Anchor) : Bool :=
@@ -372,12 +388,38 @@ instance (bins : BinTable) (a : Anchor) : Decidable (a.inside bins) := by
 /-- records on known chromosomes -/
 def anchors (o : Opts) (recs : List Rec) : List Anchor := recs.filterMap (anchorOf o.oneBased)
 
-/-- retained records after orientation: known chromosomes, mirrored (`reflect`) or filtered (`drop`) -/
-def retained (o : Opts) (recs : List Rec) : List Anchor :=
-  match o.tril with
-  | .reflect => (anchors o recs).map Anchor.upper
-  | .drop => (anchors o recs).filter fun a => !a.lower
-  | _ => anchors o recs
+/-- orientation of the retained records: mirrored (`reflect`) or filtered (`drop`) -/
+def orientAnchors (t : Tril) (l : List Anchor) : List Anchor :=
+  match t with
+  | .reflect => l.map Anchor.upper
+  | .drop => l.filter fun a => !a.lower
+  | _ => l
+
+/-- retained records after orientation: known chromosomes, then `orientAnchors` -/
+def retained (o : Opts) (recs : List Rec) : List Anchor := orientAnchors o.tril (anchors o recs)
+
+/-! #### the pipeline written on the anchors alone (proof device: `C05.sanitizeWith_sim`) -/
+
+/-- the anchors of a working row -/
+def Row.anc (r : Row) : Anchor := ⟨r.c1, r.a1, r.c2, r.a2, firstVal r.u⟩
+
+def Anchor.neg (a : Anchor) : Bool := decide (a.a1 < 0) || decide (a.a2 < 0)
+
+def Anchor.excess (bins : BinTable) (a : Anchor) : Bool :=
+  decide (a.a1 > (chromLen bins a.c1 : Int)) || decide (a.a2 > (chromLen bins a.c2 : Int))
+
+def keyOf (bins : BinTable) (bs : Option Nat) (a : Anchor) : Key × Int :=
+  ((assignBin bins bs a.c1 a.a1, assignBin bins bs a.c2 a.a2), a.v)
+
+/-- `_sanitize_records` followed by the projection to `(bin1, bin2, value)`, as a function of the
+anchors of the records on known chromosomes: every other column is carried along untouched -/
+def anchorPipeline (bins : BinTable) (bs : Option Nat) (o : Opts) (l : List Anchor) :
+    Except Err (List (Key × Int)) :=
+  if o.validate = true ∧ l.any Anchor.neg = true then .error .badInput
+  else if o.validate = true ∧ l.any (Anchor.excess bins) = true then .error .badInput
+  else if o.tril = .raise ∧ l.any Anchor.lower = true then .error .badInput
+  else if o.tril = .bogus ∧ l.any Anchor.lower = true then .error .value
+  else .ok ((orientAnchors o.tril l).map (keyOf bins bs))
 
 /-- the pixel a record belongs to -/
 def pixelOf (bins : BinTable) (a : Anchor) : Option Key :=
@@ -401,17 +443,45 @@ def atLength (bins : BinTable) (o : Opts) (recs : List Rec) : Bool :=
     decide (a.a1 = (chromLen bins a.c1 : Int)) || decide (a.a2 = (chromLen bins a.c2 : Int))
 
 /-- L0 for pre-binned records: the pixel is the (shifted, oriented) id pair itself -/
+def specPixelShift (o : Opts) (ps : List PxRec) : List (Key × Int) :=
+  ps.map fun p =>
+    (((p.b1 - (if o.oneBased then 1 else 0), p.b2 - (if o.oneBased then 1 else 0)) : Key), p.val)
+
 def specPixelKeys (o : Opts) (ps : List PxRec) : List (Key × Int) :=
-  let d : Int := if o.oneBased then 1 else 0
-  let l := ps.map fun p => (((p.b1 - d, p.b2 - d) : Key), p.val)
   match o.tril with
-  | .reflect => l.map fun kv => if kv.1.1 > kv.1.2 then ((kv.1.2, kv.1.1), kv.2) else kv
-  | .drop => l.filter fun kv => !decide (kv.1.1 > kv.1.2)
-  | _ => l
+  | .reflect => (specPixelShift o ps).map fun kv => if kv.1.1 > kv.1.2 then ((kv.1.2, kv.1.1), kv.2) else kv
+  | .drop => (specPixelShift o ps).filter fun kv => !decide (kv.1.1 > kv.1.2)
+  | _ => specPixelShift o ps
+
+/-- L0 outcome for a batch of pre-binned records -/
+def specPixels (o : Opts) (ps : List PxRec) : Except Err (List Cell) :=
+  let lower := (specPixelShift o ps).any fun kv => decide (kv.1.1 > kv.1.2)
+  if o.tril = .raise ∧ lower then .error .badInput
+  else if o.tril = .bogus ∧ lower then .error .value
+  else .ok (groupCells (specPixelKeys o ps))
+
+/-- what `create` does downstream of the sanitizer with ids outside the table (not part of C05; used
+only to state the variant oracle of known finding D13 for the command-line loaders):
+`boundscheck=True` rejects, `boundscheck=False` (cload pairs) writes the pixel, and a pixel whose ROW id
+is past the table is unreachable through the row index and is lost on the merge pass -/
+def boundsChecked (nbins : Nat) (r : Except Err (List Cell)) : Except Err (List Cell) :=
+  match r with
+  | .error e => .error e
+  | .ok cells =>
+    if cells.any (fun c => decide (c.k.1 < 0) || decide (c.k.2 < 0)) then .error .badInput
+    else if cells.any (fun c => decide (c.k.1 ≥ (nbins : Int)) || decide (c.k.2 ≥ (nbins : Int))) then .error .badInput
+    else .ok cells
+
+def rowLimited (nbins : Nat) (r : Except Err (List Cell)) : Except Err (List Cell) :=
+  match r with
+  | .error e => .error e
+  | .ok cells => .ok (cells.filter fun c => decide (0 ≤ c.k.1) && decide (c.k.1 < (nbins : Int)))
 
 /-! ### table well-formedness used by the theorems (executable twin: `validSegmentationB`) -/
 
 def ChromSorted (bins : BinTable) : Prop := bins.Pairwise fun a b => a.chrom ≤ b.chrom
+
+instance (bins : BinTable) : Decidable (ChromSorted bins) := by unfold ChromSorted; exact inferInstance
 
 /-- chromosomes in ascending blocks, every chromosome a gap-free tiling from 0 -/
 def TableOK (bins : BinTable) : Prop := ChromSorted bins ∧ ∀ g ∈ groups bins, ValidChrom g
